@@ -9,8 +9,11 @@ U == 1000000                      \* micro-degrees per degree
 Abs(x) == IF x < 0 THEN -x ELSE x
 \* wrap a longitude difference into (-180, 180] degrees
 Wrap(dl) == ((dl + 180 * U) % (360 * U)) - 180 * U
-RECURSIVE SumSeqI(_)
-SumSeqI(s) == IF s = <<>> THEN 0 ELSE s[1] + SumSeqI(Tail(s))
+RECURSIVE SumRange(_, _, _)
+\* divide and conquer: recursion depth log2(Len), rings have up to 321 vertices
+SumRange(s, lo, hi) == IF lo > hi THEN 0 ELSE IF lo = hi THEN s[lo]
+                       ELSE LET m == (lo + hi) \div 2 IN SumRange(s, lo, m) + SumRange(s, m + 1, hi)
+SumSeqI(s) == SumRange(s, 1, Len(s))
 Nxt(i, n) == IF i = n THEN 1 ELSE i + 1
 
 \* ring = sequence of <<lon, lat>> in micro-degrees, not closed
